@@ -53,6 +53,9 @@ struct DiskInterface {
 };
 struct BuildLogUser { bool vf_dead[4]; bool IsPathDead(StringPiece s) const; };
 static int vf_replace_calls = 0; static bool vf_replace_ok = true;
+static unsigned long vf_hash_parsed = 0;
+static unsigned long long vf_strtoull(const char* s, char** e, int base) { (void)s; (void)e; (void)base; return vf_hash_parsed; }      /* contract: the value of the hex text */
+#define strtoull vf_strtoull
 static bool ReplaceContent(const std::string& path, const std::string& temp_path, std::string* err) { (void)path; (void)temp_path; vf_replace_calls++; if (!vf_replace_ok) *err = "rename failed"; return vf_replace_ok; }
 struct BuildLog {
   struct LogEntry {
@@ -67,6 +70,7 @@ struct BuildLog {
   bool Restat(const StringPiece path, const DiskInterface& disk_interface, const int output_count, char** outputs, std::string* const err);
   bool Recompact(const std::string& path, const BuildLogUser& user, std::string* err);
   LogEntry* LookupByOutput(const std::string& path) const;
+  void vf_LoadUpdate(std::string output, int start_time, int end_time, TimeStamp mtime, char* start, char* end, int& unique_entry_count, int& total_entry_count);
   /* contract stubs: WriteEntry appends one line for `entry` to f (records it); OpenForWriteIfNeeded opens the log for append; Close closes it */
   bool WriteEntry(FILE* f, const LogEntry& entry) {
     __CPROVER_assert(f != 0, "pre WriteEntry: an open file");
@@ -94,6 +98,14 @@ def unit_text(mutant=None):
             f = mutant(f)
         parts.append(f)
     body = "\n\n".join(parts)
+    # the entry-update statements of BuildLog::Load (from `LogEntry* entry;` to `*end = c;`), sliced by line range and wrapped into a member function so that they can be called
+    # once per parsed line: `continue` (skip the line) becomes leaving the do-while
+    blk = slicer.extract_lines("src/build_log.cc", r'^\s*LogEntry\* entry;\s*$', r'^\s*\*end = c;\s*$')
+    if mutant and getattr(mutant, "target", None) == "LoadUpdate":
+        blk = mutant(blk)
+    body += ("\n\nvoid BuildLog::vf_LoadUpdate(std::string output, int start_time, int end_time, TimeStamp mtime, char* start, char* end, int& unique_entry_count, int& total_entry_count) {\n"
+             "  do {\n" + blk + "  } while (0);\n}\n")
+    body = body.replace("entries_.find(output);", "entries_.find(StringPiece(output));").replace("new LogEntry(std::move(output))", "new LogEntry(output)")
     # L7m: range-for over the entries map -> iterator loop
     body, n7 = re.subn(r'for\s*\(\s*(?:const\s+)?auto&\s*(\w+)\s*:\s*entries_\s*\)\s*\{',
                        lambda m: "for (Entries::iterator vf_it = entries_.begin(); vf_it != entries_.end(); ++vf_it) { Entries::value_type& %s = *vf_it;" % m.group(1), body)
@@ -102,7 +114,7 @@ def unit_text(mutant=None):
     # L24: unique_ptr operator-> / operator* spelled through get()
     body, n24 = re.subn(r'\b(pair|i->second|\w+)\.second->', lambda m: "%s.second.get()->" % m.group(1), body)
     body, n24b = re.subn(r'\*pair\.second\b(?!\.)', '*pair.second.get()', body)
-    body = body.replace("std::unique_ptr<LogEntry>(log_entry)", "vf_UP<LogEntry>(log_entry)")
+    body = re.sub(r'std::unique_ptr<LogEntry>\((\w+)\)', r'vf_UP<LogEntry>(\1)', body)
     body, nem = re.subn(r'entries_\.emplace\(([^,]+),\s*([^;]+)\);', r'entries_.insert(Entries::value_type(StringPiece(\1), \2));', body)
     body = body.replace("Entries::iterator i = entries_.find(path);", "Entries::iterator i = entries_.find(StringPiece(path));").replace(
         "Entries::const_iterator i = entries_.find(path);", "Entries::const_iterator i = entries_.find(StringPiece(path));")
